@@ -262,6 +262,8 @@ SitesOf(kind) ==
     [] kind = "fracdigits" -> {<<"fraction-digits", "type">>}
     [] kind = "pattern" -> {<<"pattern", "type">>}
     [] OTHER -> {}
+QuickIdSites == {"module", "leaf", "prefix", "import", "typedef", "bit", "case", "feature"}
+SitesFor(kind, full) == IF full \/ kind # "identifier" THEN SitesOf(kind) ELSE {s \in SitesOf(kind) : s[1] \in QuickIdSites}
 ArgStmt(kw, parentKw, a) ==
   LET b == Mk(kw, 1, parentKw) IN
   IF kw = "augment" /\ parentKw = "uses" THEN St("uses", "g1", <<St("augment", a, b.subs)>>)
@@ -391,13 +393,53 @@ ArgHistories(kind, s, kb, ko) ==
 \* the same argument text under statements of different kinds: valid for one, invalid for the other
 CrossArgs == {"true", "1", "current", "user", "add", "2020-01-01", "a", "unbounded", "1..2", "/tc", "p:a", "18"}
 OneSite(kind) == CHOOSE s \in SitesOf(kind) : TRUE
-CrossTriples == {x \in JudgedKinds \X JudgedKinds \X CrossArgs :
+CrossTriples(u_) == {x \in JudgedKinds \X JudgedKinds \X CrossArgs :
                    x[1] # x[2] /\ ArgVerdict(x[1], x[3]) = "valid" /\ ArgVerdict(x[2], x[3]) = "invalid"}
 CrossHistories(k) ==
   UNION {LET s1 == OneSite(x[1])  s2 == OneSite(x[2])  a == x[3] IN
          {<<ArgTree(s1[1], s1[2], a), ArgTree(s2[1], s2[2], a)>>, <<ArgTree(s2[1], s2[2], a), ArgTree(s1[1], s1[2], a)>>}
-         : x \in FirstK(CrossTriples, k)}
+         : x \in FirstK(CrossTriples(0), k)}
 CardHistories(k) ==
   UNION {UNION {{<<CardTree(P, C, 2), CardTree(P, C, 2)>>, <<CardTree(P, C, 1), CardTree(P, C, 2), CardTree(P, C, 1)>>}
                 : C \in FirstK({c \in DOMAIN Sub(P) : Sub(P)[c][2] = 1}, 1)} : P \in FirstK({p \in ParentIds : DOMAIN Sub(p) # {}}, k)}
+
+(* ---- extension statements interleaved in the module / submodule statement sequence ----
+   stmtsep admits a prefixed extension statement at every position: before the header, between two sections,
+   between two revisions.  Valid ignores them (YangStmtMC.InterleaveNeutral), so the expectations are those
+   of the same sequence without them.                                                                    *)
+ExtAt(i) == Lf(ExtKw, "x" \o ToString(i))
+\* an extension statement in every gap g of the children (gap 0 = before the first child) with g \in gaps
+WithExts(t, gaps) ==
+  St(t.kw, t.arg, (IF 0 \in gaps THEN <<ExtAt(0)>> ELSE << >>)
+                  \o FlattenSeq([i \in 1..Len(t.subs) |-> IF i \in gaps THEN <<t.subs[i], ExtAt(i)>> ELSE <<t.subs[i]>>]))
+StripExts(t) == St(t.kw, t.arg, SelectSeq(t.subs, LAMBDA s : s.kw # ExtKw))
+\* order trees: one extension at each single gap, and one in every gap
+OrderInterleaved(root, full) ==
+  UNION {{Complete(WithExts(t, {g})) : g \in 0..Len(t.subs)} \cup {Complete(WithExts(t, 0..Len(t.subs)))}
+         : t \in OrderPerms(root) \cup (IF full THEN OrderSubsets(root) ELSE {})}
+  \cup {Complete(WithExts(t, 0..Len(t.subs))) : t \in OrderSubsets(root)}
+\* revision lists: every subset of the gaps next to a revision (before the first, between two, after the last)
+RevLists(root) ==
+  LET hdr == Blocks(root)[1] IN
+  {[t |-> St(root, RootName, hdr \o [i \in DOMAIN s |-> Lf("revision", RevDates[s[i]])] \o <<Mk("leaf", 1, root)>>),
+    lo |-> Len(hdr), hi |-> Len(hdr) + Len(s)] : s \in UNION {[1..n -> 1..3] : n \in 1..3}}
+RevInterleaved(root) ==
+  UNION {{Complete(WithExts(r.t, gaps)) : gaps \in (SUBSET (r.lo..r.hi)) \ {{}}} : r \in RevLists(root)}
+
+(* ---- white space that is not optsep ----
+   optsep / sep are built from SP, HTAB and line breaks only.  Form feed, vertical tab, NEL (U+0085), NBSP (U+00A0),
+   LINE SEPARATOR (U+2028) and IDEOGRAPHIC SPACE (U+3000) are ordinary (illegal) characters for every typed argument,
+   wherever a trimming or splitting routine might swallow them: leading, trailing, next to a separator, in place of
+   a blank.  They travel as placeholders; the verdict is the ABNF predicate's, as for every other candidate.       *)
+OddWs == {"~f", "~v", "~N", "~b", "~L", "~I"}
+WsBases(kind) ==
+  CASE kind \in {"range", "length"} -> {"1..5", "1..2|5", "1 .. 2 | 5", "min..max"}
+    [] kind = "key" -> {"k j", "k"}
+    [] kind = "unique" -> {"k j", "k"}
+    [] OTHER -> FirstK(OkArgs(kind), 2)
+InsertAt2(a, g, w) == SubSeq(a, 1, g) \o w \o SubSeq(a, g + 1, Len(a))            \* w after the g-th character of the string
+ReplaceAt2(a, g, w) == SubSeq(a, 1, g - 1) \o w \o SubSeq(a, g + 1, Len(a))
+WsCands(kind) ==
+  UNION {UNION {{InsertAt2(a, g, w) : g \in 0..Len(a)} \cup {ReplaceAt2(a, g, w) : g \in {i \in 1..Len(a) : SubSeq(a, i, i) = " "}}
+                : w \in OddWs} : a \in {b \in WsBases(kind) : \A i \in 1..Len(b) : SubSeq(b, i, i) # "~"}}
 =============================================================================
